@@ -487,6 +487,9 @@ func (m *M) Finish() int {
 	if len(samples) > 24 {
 		samples = samples[:24]
 	}
+	if samples == nil {
+		samples = []any{}
+	}
 	cov := map[string]any{
 		"evaluations":         m.evals,
 		"distinct_nontrivial": len(m.distinct),
